@@ -149,6 +149,18 @@ def handle (op : String) (args : List String) (impl : String) : Option Verdict :
       return ⟨if latest.isNone then "err" else "panic", !(impl.startsWith "ok"), "evmretrytx:no-block-number"⟩
     let some r := receipt.toInt? | return bad
     return retryVerdict "evmretrytx" latest (fun l => retryReady l r conf) (fun l => decide (conf ≤ l - r)) "ok:2" impl "err" false
+  | "subretryevents", [fin, hs] => some <| Id.run do
+    let some fin := parseHead fin | return bad
+    let some hs := (items hs ",").mapM String.toInt? | return bad
+    let some f := fin | return ⟨"err", impl == "err", "subretryevents:rpc-error"⟩
+    let okHs := hs.filter fun h => subRetryEventReady f h
+    let m := if okHs.isEmpty then "skip" else "fetched:" ++ ",".intercalate (okHs.map toString)
+    -- property: every block fetched is one of the retried heights and is not above the finalized head
+    let ok := impl == "skip" || (impl.startsWith "fetched:" &&
+      (((impl.drop 8).toString.splitOn ",").all fun x => match x.toInt? with
+        | some v => hs.contains v && decide (v ≤ f)
+        | none => false))
+    return ⟨m, ok, s!"subretryevents:n={min hs.length 3}:ready={min okHs.length 3}"⟩
   | "retryv2", [kind, latest, h, conf] => some <| Id.run do
     let some latest := parseHead latest | return bad
     let some conf := conf.toInt? | return bad
